@@ -1,6 +1,6 @@
 (* C09 -- missing-value policy: drop / error / pass (Model/Design.v prepare_data, design_matrices).
    NaN propagation through the numeric kernels ("pass") is tied by the correspondence. *)
-From Verif Require Import Base Tokens Algebra Frame Design DesignStructure FrameStructure.
+From Verif Require Import Base Tokens Lazy Algebra Coding Contrasts Frame Eval Design DesignStructure DesignCoding FrameStructure Unseen Prediction PredictionGroups Containers ResponseIndep PassPolicy.
 From Verif Require Generated Tie.
 Local Close Scope Qc_scope.
 Local Close Scope Q_scope.
@@ -36,6 +36,47 @@ Theorem C09_unused_columns_irrelevant :
     prepare_data d1 m na = prepare_data d2 m na.
 Proof. exact unused_columns_irrelevant. Qed.
 
+(* ---- "pass" ---- *)
+
+(* IEEE: NaN times zero is NaN, so x:f[b] is NaN on a row where x is missing even though the
+   indicator is 0 there *)
+Theorem C09_nan_times_zero : cmul None (zcell 0) = None /\ cmul (zcell 0) None = None.
+Proof. exact nan_times_zero. Qed.
+
+(* For models made of plain variables, arithmetic calls (I(...), operators) and C/T/S codings of complete
+   categorical columns, on frames whose missing values sit in numeric columns and in which every level
+   and every group occurs on some complete row:
+   - "pass" keeps every row, in order;
+   - the design under "drop" is the design under "pass" with the incomplete rows removed from every
+     matrix (same names, kinds, labels, levels, contrasts, group labels: complete rows are encoded exactly
+     as under drop);
+   - on every row, a common or group-specific term is NaN in ALL its columns if a numeric variable it
+     reads is missing there, and in NO column otherwise. *)
+Theorem C09_pass_policy : forall cx e D m ds,
+  describe e = Ok m -> frame_wf D -> frame_rows D <> 0%nat -> used_cols D m <> [] ->
+  frame_unordered D -> scalar_extras cx ->
+  count_true (complete_mask D m) <> 0%nat ->
+  simple_modelb D m = true -> frame_coveredb (complete_mask D m) D m = true ->
+  design_matrices cx e D NaPass = Ok ds ->
+  ds_nrows ds = frame_rows D /\
+  design_matrices cx e D NaDrop = Ok (design_select (complete_mask D m) ds) /\
+  forall i, (i < frame_rows D)%nat -> common_rows_spec D i ds /\ group_rows_spec D i ds.
+Proof. exact pass_policy_simple. Qed.
+
+(* The coverage premise is necessary (and the property's clause "complete rows are encoded exactly as
+   under drop" is to be read with it): when a level occurs only on incomplete rows, "drop" loses the level
+   and its column, "pass" keeps it. *)
+Theorem C09_refuted_without_level_coverage :
+  exists cx e D m dsP dsD,
+    describe e = Ok m /\ frame_wf D /\ frame_unordered D /\ scalar_extras cx /\
+    used_cols D m <> [] /\ count_true (complete_mask D m) <> 0%nat /\ simple_modelb D m = true /\
+    frame_coveredb (complete_mask D m) D m = false /\
+    design_matrices cx e D NaPass = Ok dsP /\ design_matrices cx e D NaDrop = Ok dsD /\
+    map dt_labels (ds_common dsP) = [Some ["Intercept"%string]; Some ["x"%string]; Some ["f[b]"%string; "f[c]"%string]] /\
+    map dt_labels (ds_common dsD) = [Some ["Intercept"%string]; Some ["x"%string]; Some ["f[c]"%string]] /\
+    dsD <> design_select (complete_mask D m) dsP.
+Proof. exact PassPolicyExamples.levels_not_kept_refuted. Qed.
+
 (* any other na_action is refused: the accepted values are exactly those of the source *)
 Example C09_accepted_policies : Generated.gen_na_actions = ["drop"%string; "error"%string; "pass"%string].
 Proof. reflexivity. Qed.
@@ -43,3 +84,6 @@ Proof. reflexivity. Qed.
 Print Assumptions C09_drop_is_filter.
 Print Assumptions C09_design_drop_is_filter.
 Print Assumptions C09_error_iff.
+Print Assumptions C09_nan_times_zero.
+Print Assumptions C09_pass_policy.
+Print Assumptions C09_refuted_without_level_coverage.
